@@ -33,11 +33,10 @@ def wdoc : Doc :=
 theorem wdoc_pairs : densePairs (sortBy idLeE wdoc.objects.keys) 2 [] =
     some ([((1,0),(2,0)), ((2,0),(3,0)), ((3,0),(4,0)), ((4,0),(5,0)), ((5,0),(6,0))], 7) := by decide
 
-/-- **F-C10-a (counter-witness).** Dense pass with start 2 on ids 1..5: the page object (2,0) moves to
-(3,0) (`replace` maps (2,0) ↦ (3,0)), but the bookmark that pointed at page (2,0) ends at (6,0):
-`renumber_bookmarks` is applied pair by pair and each new id is the next pair's old id. -/
-theorem bookmark_chain_witness :
-    ((densePass wdoc 2).toOption.bind fun d' => (d'.bmTable.get 1).map (·.page)) = some (6, 0) ∧
+/-- (F-C10-a fixed) Dense pass with start 2 on ids 1..5: the page object (2,0) moves to (3,0) and the
+bookmark that pointed at page (2,0) follows it — targets are renamed once, through the complete map. -/
+theorem bookmark_follows_example :
+    ((densePass wdoc 2).toOption.bind fun d' => (d'.bmTable.get 1).map (·.page)) = some (3, 0) ∧
     lookupId [((1,0),(2,0)), ((2,0),(3,0)), ((3,0),(4,0)), ((4,0),(5,0)), ((5,0),(6,0))] (2,0) = some (3,0) := by
   constructor
   · unfold densePass
@@ -45,6 +44,20 @@ theorem bookmark_chain_witness :
     simp only [Outcome.toOption]
     decide
   · decide
+
+/-- **bookmark targets follow the renaming**: after a move pass every bookmark's page is `rho` of what it was -/
+theorem bookmarks_follow_rho (bks : List Nat) (os : Objects) (bm : BkTable) (pairs : List (ObjId × ObjId))
+    (h1 : (pairs.map (·.1)).Nodup) (h2 : ∀ p ∈ pairs, os.get p.1 ≠ none) :
+    (movePass bks os bm pairs).bm = bm.map fun (i, b) => (i, { b with page := (lookupId pairs b.page).getD b.page }) := by
+  have hrep := (movePass_get bks os bm pairs h1 h2).2
+  have hbm : ∀ (pairs : List (ObjId × ObjId)) (st : MoveSt), (pairs.foldl (moveStep bks) st).bm = st.bm := by
+    intro pairs
+    induction pairs with
+    | nil => intro st; rfl
+    | cons p rest ih => intro st; simp only [List.foldl_cons]; rw [ih]; unfold moveStep moveObj; split <;> rfl
+  unfold movePass at hrep ⊢
+  simp only at hrep ⊢
+  rw [hrep, hbm]; rfl
 /-- **C10, dense numbering.** For any document with `1 ≤ start + n ≤ u32::MAX` (n objects, distinct keys)
 the dense pass returns; afterwards the object numbers are exactly `start … start+n-1` (each new id of
 the assignment holds an object and nothing else does) and `max_id` is the last number. -/
